@@ -952,6 +952,15 @@ Proof.
   cbn [fst snd] in HO. destruct HO as [H1 H2]. split; assumption.
 Qed.
 
+(* ------------------------------------------------------------------ the dispatch of the field loop *)
+(* gen_field_dispatch: where the type argument of every recursive call of the traversal comes from,
+   followed through type switches, assertions, local definitions and helpers (dispatchFacts in the
+   translator).  The traversal continues with the field's OWN named type — T itself, or the T of *T —
+   not with anything computed from it (its Origin(), its Underlying(), a wrapper's result). *)
+Lemma tie_field_dispatch :
+  gen_field_dispatch = ["named:field.Type()"; "named:field.Type().Elem()"].
+Proof. reflexivity. Qed.
+
 Print Assumptions tie_final_names.
 Print Assumptions tie_own_methods.
 Print Assumptions tie_extract.
